@@ -27,9 +27,10 @@ TRANSPARENT = [
     (r"parking_lot::.*::(new|into_inner)$", None),
     (r"alloc::sync::Arc::<T(, A)?>::(try_unwrap|into_inner|downgrade)$", None),
     (r"core::iter::traits::collect::IntoIterator::into_iter$", None),
-    (r"core::iter::traits::iterator::Iterator::(next|copied|cloned|by_ref|enumerate)$", [0]),
+    (r"core::iter::traits::iterator::Iterator::(next|copied|cloned|by_ref|enumerate|map|filter|filter_map|flat_map|take|skip|chain|rev|peekable|fuse|inspect)$", [0]),
+    (r"core::sync::atomic::Atomic::<[^>]*>::new$", None),
     (r"core::slice::<impl \[T\]>::(iter|iter_mut|as_ref)$", None),
-    (r"alloc::vec::Vec::<T>::(iter|as_slice)$", None),
+    (r"alloc::vec::Vec::<T(, A)?>::(iter|iter_mut|as_slice|as_mut_slice|drain)$", [0]),
     (r"core::cell::RefCell::<T>::(borrow|borrow_mut)$", None),
     (r"OccupiedEntry::<[^:]*>::(get|get_mut|into_mut|key)$", [0]),
 ]
@@ -138,6 +139,7 @@ def origins_of_place(body, place, extra_transparent=(), through_agg=True, stop_a
                                 c = o["c"]
                                 out.add(Origin("const", None, c.get("s") or (c.get("fn") or {}).get("path")))
                 elif k in ("bin", "un"):
+                    out.add(Origin("bin", site, rv["op"]))
                     for key in ("a", "b"):
                         if key in rv:
                             pl = op_place(rv[key])
